@@ -7,6 +7,29 @@ import json
 from .. import core, realcode, execmodel as em
 
 
+def order_law_criteria(chk):
+    """two formulas whose criteria are equal for Python (1 and TRUE, 0 and FALSE): each cell answers the same whichever is asked first, and get_cells / get_sheet agree"""
+    m = realcode.mods()
+    Cell = m['Cell']
+    rows = [[1, '=COUNTIFS(A1:A6,1)', '=COUNTIFS(A1:A6,TRUE)'], [True, '=COUNTIFS(A1:A6,0)', '=COUNTIFS(A1:A6,FALSE)'], [1.0, '=SUMIF(A1:A6,1,A1:A6)', '=COUNTIFS(A1:A6,"1")'], [0, None, None],
+            [False, None, None], ['1', None, None]]
+    cls = realcode.load_class(realcode.translate([('S', rows)]))
+    cells = [(c, r) for r in range(3) for c in (1, 2)]
+    ref = {}
+    for t in cells:
+        ref[t] = core.outcome(lambda: realcode.executor_for(cls).get_cell(Cell(0, *t)).value)
+    import itertools
+    for perm in list(itertools.permutations(cells))[::37]:
+        ex = realcode.executor_for(cls)
+        for t in perm:
+            got = core.outcome(lambda: ex.get_cell(Cell(0, *t)).value)
+            chk.count('law:criteria-order')
+            if got != ref[t]:
+                chk.violation({'why': 'the value of a cell depends on which other cell was queried before (criteria that are equal for Python: 1 / TRUE, 0 / FALSE)',
+                               'formula': rows[t[1]][t[0]], 'order': [rows[r][c] for c, r in perm], 'impl': got, 'alone': ref[t], 'stream': 'criteria-order'})
+                return
+
+
 def answers(ops, outs):
     """per-query answers keyed by (kind, target) so that schedules can be compared after permutation"""
     res = {}
@@ -136,6 +159,7 @@ def run(tier, seed):
                         chk.violation({'why': 'sheet grid entry differs from the single-cell query for its coordinate', 'sheet': s, 'coord': (c, r),
                                        'grid': core.outcome(lambda: cell.value), 'single': single, 'stream': 'grid', 'history': repr(setup)[:800]})
     chk.judge('schedules', cases, sample_cap=3)
+    order_law_criteria(chk)
     return chk.finish()
 
 
